@@ -20,6 +20,7 @@ import (
 	"go/token"
 	"os"
 	"path/filepath"
+	"sort"
 	"strconv"
 	"strings"
 )
@@ -611,11 +612,62 @@ func rewriteFile(src string) (out []byte, err error) {
 	if err := printer.Fprint(&b, token.NewFileSet(), f); err != nil {
 		return nil, err
 	}
-	res, ferr := format.Source(b.Bytes())
+	src2 := append([]byte(buildConstraints(src)), b.Bytes()...)
+	res, ferr := format.Source(src2)
 	if ferr != nil {
-		return b.Bytes(), nil
+		return src2, nil
 	}
 	return res, nil
+}
+
+// needsRewrite: the file imports a package the shims replace, or contains goroutine / channel syntax.
+func needsRewrite(path string) bool {
+	fset := token.NewFileSet()
+	f, err := parser.ParseFile(fset, path, nil, 0)
+	if err != nil {
+		return false
+	}
+	for _, is := range f.Imports {
+		if p, _ := strconv.Unquote(is.Path.Value); importMap[p] != "" {
+			return true
+		}
+	}
+	found := false
+	ast.Inspect(f, func(n ast.Node) bool {
+		switch v := n.(type) {
+		case *ast.GoStmt, *ast.ChanType, *ast.SendStmt, *ast.SelectStmt:
+			found = true
+		case *ast.UnaryExpr:
+			if v.Op == token.ARROW {
+				found = true
+			}
+		}
+		return !found
+	})
+	return found
+}
+
+// buildConstraints returns the //go:build and // +build lines in front of the package clause (the rewritten file is
+// printed without comments; these must survive).
+func buildConstraints(path string) string {
+	b, err := os.ReadFile(path)
+	if err != nil {
+		return ""
+	}
+	var out []string
+	for _, line := range strings.Split(string(b), "\n") {
+		t := strings.TrimSpace(line)
+		if strings.HasPrefix(t, "package ") {
+			break
+		}
+		if strings.HasPrefix(t, "//go:build ") || strings.HasPrefix(t, "// +build ") {
+			out = append(out, t)
+		}
+	}
+	if len(out) == 0 {
+		return ""
+	}
+	return strings.Join(out, "\n") + "\n\n"
 }
 
 func main() {
@@ -626,7 +678,21 @@ func main() {
 	repo, shim, out := os.Args[1], os.Args[2], os.Args[3]
 	os.MkdirAll(out, 0o755)
 	replace := map[string]string{}
-	for i, rel := range []string{"pkg/pow/worker.go", "pkg/pow/v2/worker.go", "pkg/pow/pow.go", "pkg/pow/v2/pow.go"} {
+	// every non-test source file below pkg/pow (the PoW packages and whatever internal packages they are split into)
+	// that uses something the shims replace
+	var rels []string
+	filepath.Walk(filepath.Join(repo, "pkg", "pow"), func(path string, info os.FileInfo, err error) error {
+		if err != nil || info.IsDir() || !strings.HasSuffix(path, ".go") || strings.HasSuffix(path, "_test.go") {
+			return nil
+		}
+		if needsRewrite(path) {
+			rel, _ := filepath.Rel(repo, path)
+			rels = append(rels, rel)
+		}
+		return nil
+	})
+	sort.Strings(rels)
+	for i, rel := range rels {
 		src := filepath.Join(repo, rel)
 		b, err := rewriteFile(src)
 		if err != nil {
